@@ -20,7 +20,8 @@ from .common import Verdict
 
 PROP = "C03"
 
-INTS = [None, 0, 1, -1, 7, -7, 65, -65, 3, 1048576]
+# (the last three do not fit a float's 53-bit mantissa: integer arithmetic must stay exact on them)
+INTS = [None, 0, 1, -1, 7, -7, 65, -65, 3, 1048576, 9007199254740993, -9007199254740993, 1700000000123456789]
 FLOATS = [None, 0.0, 0.5, -1.25, 2.0, -2.0, 8.125]
 BOOLS = [None, True, False]
 STRS = [None, "", "a", "ab", "b a", " x ", "abcab"]
@@ -81,6 +82,15 @@ def in_domain(op, args) -> bool:
         return False
     if op == "truediv" and args[1] == 0.0:
         return False
+    big = [a for a in args if isinstance(a, int) and not isinstance(a, bool) and abs(a) > 2 ** 52]
+    if big:
+        if op in ("truediv", "mean", "pow"):
+            return False                       # float results of 64-bit operands: rounding is outside the domain (4.4)
+        if op in ("add", "sub", "horizontal_sum"):
+            ints = [a for a in args if isinstance(a, int) and not isinstance(a, bool)]
+            return sum(abs(a) for a in ints) < 2 ** 62
+        if op == "mul":
+            return all(a is not None for a in args) and abs(args[0] * args[1]) < 2 ** 62
     if op in ("mul",) and any(isinstance(a, int) and abs(a) > 100000 for a in args if a is not None) and all(a is not None for a in args):
         return abs(args[0] * args[1]) < 2 ** 53
     return True
